@@ -151,6 +151,7 @@ def dispatch (op : String) (args : List Sexp) : String :=
   | "place.array" => opPlaceArray args
   | "rawgds.export" => opRawGdsExport args
   | "gdsraw.import" => opGdsRawImport args
+  | "gdsraw.flat" => opGdsRawFlat args
   | "rawproto.export" => opRawProtoExport args
   | "rawproto.import" => opRawProtoImport args
   | "lef.lex" => opLefLex args
